@@ -1,1 +1,149 @@
-//! (reference for xtea: to be written)
+//! XTEA, written from R. Needham and D. Wheeler, "Tea extensions" (technical report, Computer Laboratory,
+//! University of Cambridge, October 1997), routine `tean` (the "new variant"), with N = 32 cycles:
+//!
+//! ```text
+//!   while (sum != limit)
+//!       y += (z<<4 ^ z>>5) + z ^ sum + k[sum&3],
+//!       sum += DELTA,
+//!       z += (y<<4 ^ y>>5) + y ^ sum + k[sum>>11 & 3];
+//! ```
+//! (C precedence: `+` binds tighter than `^`, so each line is  `((z<<4 ^ z>>5) + z) ^ (sum + k[..])`.)
+//! Decoding runs the same two half-cycles backwards starting from `sum = DELTA * N`.
+//! The report works on 32-bit words; a byte convention is not part of it.  `encrypt_le` / `decrypt_le`
+//! fix the convention named by property C09: key and block words are read and written little-endian.
+
+pub const DELTA: u32 = 0x9E37_79B9;
+/// number of cycles (one cycle = two Feistel half-rounds)
+pub const CYCLES: u32 = 32;
+
+/// The mixing term of one half-cycle: `((v<<4 ^ v>>5) + v) ^ (sum + k[idx])`.
+pub const fn term(v: u32, sum: u32, kword: u32) -> u32 {
+    (((v << 4) ^ (v >> 5)).wrapping_add(v)) ^ sum.wrapping_add(kword)
+}
+
+/// One full encoding cycle: returns (y, z, sum) after the cycle.
+pub const fn cycle(y: u32, z: u32, sum: u32, k: &[u32; 4]) -> (u32, u32, u32) {
+    let y = y.wrapping_add(term(z, sum, k[(sum & 3) as usize]));
+    let sum = sum.wrapping_add(DELTA);
+    let z = z.wrapping_add(term(y, sum, k[((sum >> 11) & 3) as usize]));
+    (y, z, sum)
+}
+
+/// One full decoding cycle (exact inverse of `cycle`): takes the state *after* a cycle, returns the one before.
+pub const fn uncycle(y: u32, z: u32, sum: u32, k: &[u32; 4]) -> (u32, u32, u32) {
+    let z = z.wrapping_sub(term(y, sum, k[((sum >> 11) & 3) as usize]));
+    let sum = sum.wrapping_sub(DELTA);
+    let y = y.wrapping_sub(term(z, sum, k[(sum & 3) as usize]));
+    (y, z, sum)
+}
+
+/// `tean(v, k, +32)` on words.
+pub const fn encrypt_words(v: [u32; 2], k: &[u32; 4]) -> [u32; 2] {
+    let (mut y, mut z, mut sum) = (v[0], v[1], 0u32);
+    let mut n = 0;
+    while n < CYCLES {
+        let r = cycle(y, z, sum, k);
+        y = r.0;
+        z = r.1;
+        sum = r.2;
+        n += 1;
+    }
+    [y, z]
+}
+
+/// `tean(v, k, -32)` on words.
+pub const fn decrypt_words(v: [u32; 2], k: &[u32; 4]) -> [u32; 2] {
+    let (mut y, mut z, mut sum) = (v[0], v[1], DELTA.wrapping_mul(CYCLES));
+    let mut n = 0;
+    while n < CYCLES {
+        let r = uncycle(y, z, sum, k);
+        y = r.0;
+        z = r.1;
+        sum = r.2;
+        n += 1;
+    }
+    [y, z]
+}
+
+pub const fn le32(b: &[u8], at: usize) -> u32 {
+    (b[at] as u32) | ((b[at + 1] as u32) << 8) | ((b[at + 2] as u32) << 16) | ((b[at + 3] as u32) << 24)
+}
+
+pub const fn key_words_le(key: &[u8; 16]) -> [u32; 4] {
+    [le32(key, 0), le32(key, 4), le32(key, 8), le32(key, 12)]
+}
+
+const fn out_le(v: [u32; 2]) -> [u8; 8] {
+    let a = v[0].to_le_bytes();
+    let b = v[1].to_le_bytes();
+    [a[0], a[1], a[2], a[3], b[0], b[1], b[2], b[3]]
+}
+
+/// 32-cycle XTEA over little-endian words (property C09).
+pub const fn encrypt_le(key: &[u8; 16], block: &[u8; 8]) -> [u8; 8] {
+    out_le(encrypt_words([le32(block, 0), le32(block, 4)], &key_words_le(key)))
+}
+pub const fn decrypt_le(key: &[u8; 16], block: &[u8; 8]) -> [u8; 8] {
+    out_le(decrypt_words([le32(block, 0), le32(block, 4)], &key_words_le(key)))
+}
+
+#[cfg(test)]
+mod tests {
+    use super::*;
+
+    fn be_words(key: [u8; 16], pt: [u8; 8]) -> ([u32; 4], [u32; 2]) {
+        let mut k = [0u32; 4];
+        for i in 0..4 {
+            k[i] = u32::from_be_bytes([key[4 * i], key[4 * i + 1], key[4 * i + 2], key[4 * i + 3]]);
+        }
+        (k, [u32::from_be_bytes([pt[0], pt[1], pt[2], pt[3]]), u32::from_be_bytes([pt[4], pt[5], pt[6], pt[7]])])
+    }
+
+    // The report prints no vectors.  The widely circulated word-level vectors (Bouncy Castle XTEATest, which
+    // reads words big-endian; at word level the convention is irrelevant) are used as the anchor.
+    #[test]
+    fn word_vectors() {
+        let k0 = [0u8; 16];
+        let k1 = [0x01, 0x23, 0x45, 0x67, 0x12, 0x34, 0x56, 0x78, 0x23, 0x45, 0x67, 0x89, 0x34, 0x56, 0x78, 0x9A];
+        let k2 = [0, 1, 2, 3, 4, 5, 6, 7, 8, 9, 10, 11, 12, 13, 14, 15];
+        let cases: [([u8; 16], u64, u64); 10] = [
+            (k0, 0x0000000000000000, 0xdee9d4d8f7131ed9),
+            (k0, 0x0102030405060708, 0x065c1b8975c6a816),
+            (k1, 0x0000000000000000, 0x1ff9a0261ac64264),
+            (k1, 0x0102030405060708, 0x8c67155b2ef91ead),
+            (k2, 0x4142434445464748, 0x497df3d072612cb5),
+            (k2, 0x4141414141414141, 0xe78f2d13744341d8),
+            (k2, 0x5a5b6e278948d77f, 0x4141414141414141),
+            (k0, 0x4142434445464748, 0xa0390589f8b8efa5),
+            (k0, 0x4141414141414141, 0xed23375a821a8c2d),
+            (k0, 0x70e1225d6e4e7655, 0x4141414141414141),
+        ];
+        for (key, pt, ct) in cases {
+            let (k, v) = be_words(key, pt.to_be_bytes());
+            let c = encrypt_words(v, &k);
+            assert_eq!(((c[0] as u64) << 32) | c[1] as u64, ct);
+            assert_eq!(decrypt_words(c, &k), v);
+        }
+    }
+
+    // little-endian byte convention: the vector used by /repo/xtea/tests (asecuritysite.com/encryption/xtea)
+    #[test]
+    fn le_vector() {
+        let key = *b"0123456789012345";
+        let pt = *b"ABCDEFGH";
+        let ct = [0xea, 0x0c, 0x3d, 0x7c, 0x1c, 0x22, 0x55, 0x7f];
+        assert_eq!(encrypt_le(&key, &pt), ct);
+        assert_eq!(decrypt_le(&key, &ct), pt);
+    }
+
+    #[test]
+    fn cycle_inverse() {
+        let k = [0xdeadbeef, 0x01234567, 0x89abcdef, 0x0badf00d];
+        let mut s = (1u32, 2u32, 0u32);
+        for _ in 0..40 {
+            let n = cycle(s.0, s.1, s.2, &k);
+            assert_eq!(uncycle(n.0, n.1, n.2, &k), s);
+            s = n;
+        }
+    }
+}
